@@ -283,8 +283,11 @@ impl<T: Socket + ?Sized> Worker<T> {
         for i in 0..self.repeat_amount {
             if i > 0 {
                 std::thread::sleep(DEFAULT_DUPLICATE_DELAY);
+                // The repeats are redundant: the peer may be gone after the first copy.
+                let _ = self.socket.send(packet);
+            } else {
+                self.socket.send(packet)?;
             }
-            self.socket.send(packet)?;
         }
 
         Ok(())
